@@ -160,7 +160,9 @@ def _names_stream(ctx: Ctx):
         try:
             f = Formula(s)
             facs = {fc.expr for t in (f.rhs if hasattr(f, "rhs") else f) for fc in t.factors}
-            want = name if "log(" not in s else f"log(`{name}`)"
+            import keyword as _kw
+            plain = name.isidentifier() and not _kw.iskeyword(name)      # such a name needs no quotes inside Python code
+            want = name if "log(" not in s else (f"log({name})" if plain else f"log(`{name}`)")
             if want not in facs:
                 ctx.fail(f"quoted name {name!r} in {s!r} was read as factors {sorted(facs)}", rp, tags)
             elif i % 4 == 0:
@@ -252,7 +254,48 @@ def _python_stream(ctx: Ctx):
     ctx.run_cases("python", G.IMPORTS, G.extra_classes(strings), "pcase", "chk_parser extra", lits, descr, shard=250)
 
 
+def _quoted_in_python(ctx: Ctx):
+    """back-quoted names inside Python code reference exactly that column, whatever the name looks like (an identifier, a prefix of
+    another quoted name, a Python keyword, a name with operator characters), and nothing else in the code is touched"""
+    import numpy as np
+    import pandas as pd
+    from formulaic import Formula, model_matrix
+    rng = ctx.fork("quoted-python")
+    names = ["a", "x", "m", "x y", "a|b", "a|b|c", "in", "for", "1st", "a b", "a  b", "é", "max", "e"]
+    n = 5
+    df = pd.DataFrame({nm: [float((k * (i + 2)) % 7 + 1) for k in range(n)] for i, nm in enumerate(names)})
+    funcs = {"np.log": np.log, "np.exp": lambda v: np.exp(v / 8), "max0": None, "np.sqrt": np.sqrt, "abs": np.abs}
+    for i in range(ctx.n(150, 2000)):
+        k = rng.choice([1, 1, 2, 3])
+        cols = [rng.choice(names) for _ in range(k)]
+        fn = rng.choice(["np.log", "np.sqrt", "np.abs", "np.maximum", "I"])
+        if fn == "np.maximum":
+            cols = (cols + [rng.choice(names)])[:2] if len(cols) < 2 else cols[:2]
+            code = f"np.maximum(`{cols[0]}`, `{cols[1]}`)"
+            want = np.maximum(df[cols[0]], df[cols[1]]).tolist()
+        elif fn == "I":
+            code = "I(" + " + ".join(f"`{c}`" for c in cols) + ")"
+            want = sum(df[c] for c in cols).tolist()
+        else:
+            code = f"{fn}(`{cols[0]}`)"
+            want = getattr(np, fn[3:])(df[cols[0]]).tolist()
+        f = code + " - 1"
+        rp = {"kind": "quoted-in-python", "formula": f}
+        ctx.oracle_runs += 1
+        try:
+            exprs = [fc.expr for t in Formula(f) for fc in t.factors]
+            mm = model_matrix(f, df)
+            got = np.asarray(mm, dtype=float)[:, 0].tolist()
+        except Exception as e:
+            ctx.fail(f"{f!r}: {type(e).__name__}: {str(e)[:200]}", rp)
+            continue
+        if len(exprs) != 1 or not np.allclose(got, want):
+            ctx.fail(f"{f!r} was read as {exprs} and evaluates to {got}; the columns {cols} give {want}", rp)
+        ctx.count("quoted-python", fn)
+
+
 def run(ctx: Ctx):
+    _quoted_in_python(ctx)
     _tok_stream(ctx)
     _ws_stream(ctx)
     _names_stream(ctx)
